@@ -1,0 +1,101 @@
+//! Verification-only hooks (compiled only with `--cfg boa_verif`).
+//!
+//! They let a deterministic simulator take over the *decision* of when a collection
+//! runs (normally a byte threshold that depends on the whole allocation history of the
+//! thread) and observe heap statistics. With no policy installed the shipped behaviour
+//! is unchanged.
+
+use std::cell::{Cell, RefCell};
+
+/// What the simulator is told at every allocation point.
+#[derive(Debug, Clone, Copy)]
+pub struct AllocPoint {
+    /// Number of allocation points seen on this thread since the last [`reset_counters`].
+    pub index: u64,
+    /// Bytes currently accounted to the heap.
+    pub bytes_allocated: usize,
+}
+
+/// A collection policy: called at every allocation point, returns `true` to collect now.
+///
+/// The callback runs while the collector state is borrowed: it must not allocate,
+/// clone or drop garbage collected pointers.
+pub type Policy = Box<dyn FnMut(AllocPoint) -> bool>;
+
+/// Heap statistics.
+#[derive(Debug, Clone, Copy, PartialEq, Eq, Default)]
+pub struct Stats {
+    /// Number of live strong boxes.
+    pub strongs: usize,
+    /// Number of live ephemeron boxes.
+    pub ephemerons: usize,
+    /// Number of live weak map tracking boxes.
+    pub weak_maps: usize,
+    /// Bytes currently accounted to the heap.
+    pub bytes_allocated: usize,
+    /// Number of collections run on this thread.
+    pub collections: usize,
+    /// Number of allocation points seen since the last [`reset_counters`].
+    pub alloc_points: u64,
+}
+
+thread_local! {
+    static POLICY: RefCell<Option<Policy>> = const { RefCell::new(None) };
+    static ALLOC_POINTS: Cell<u64> = const { Cell::new(0) };
+}
+
+/// Installs (or with `None` removes) the collection policy of this thread.
+pub fn set_policy(policy: Option<Policy>) {
+    POLICY.with(|p| *p.borrow_mut() = policy);
+}
+
+/// Resets the allocation point counter of this thread.
+pub fn reset_counters() {
+    ALLOC_POINTS.with(|c| c.set(0));
+}
+
+/// Called by the allocator. `None`: no policy installed, use the shipped threshold logic.
+pub(crate) fn decide(bytes_allocated: usize) -> Option<bool> {
+    let index = ALLOC_POINTS.with(|c| {
+        let i = c.get();
+        c.set(i + 1);
+        i
+    });
+    POLICY.with(|p| {
+        // A policy that re-enters the allocator is a harness bug; fall back to "no collection".
+        let Ok(mut p) = p.try_borrow_mut() else {
+            return Some(false);
+        };
+        p.as_mut().map(|f| {
+            f(AllocPoint {
+                index,
+                bytes_allocated,
+            })
+        })
+    })
+}
+
+/// Returns the heap statistics of this thread.
+#[must_use]
+pub fn stats() -> Stats {
+    let alloc_points = ALLOC_POINTS.with(Cell::get);
+    crate::BOA_GC.with(|gc| {
+        let gc = gc.borrow();
+        Stats {
+            strongs: gc.strongs.len(),
+            ephemerons: gc.weaks.len(),
+            weak_maps: gc.weak_maps.len(),
+            bytes_allocated: gc.runtime.bytes_allocated,
+            collections: gc.runtime.collections,
+            alloc_points,
+        }
+    })
+}
+
+/// Runs a collection unconditionally (unlike [`crate::force_collect`], also on an empty heap).
+pub fn collect_now() {
+    crate::BOA_GC.with(|gc| {
+        let mut gc = gc.borrow_mut();
+        crate::Collector::collect(&mut gc);
+    });
+}
